@@ -39,7 +39,14 @@ fn binary_isolated(c: &logistic::LogitCase, obs: &mut Obs) {
     isolate::isolated("binary", c, obs, "")
 }
 fn multinomial_isolated(c: &logistic::LogitCase, obs: &mut Obs) {
-    isolate::isolated("multinomial", c, obs, "")
+    // a fit that never returns is attributed to the known log_sum_exp defect when the harness' own minimiser or the
+    // solver's first trial point lies in or near the region where linfa's global-max shift + clamp falsifies the loss:
+    // the line search then works with inconsistent values and has no iteration limit (only evaluated when a case was killed)
+    let suffix = || match logistic::deficit_at_own_minimiser(c) {
+        Some(d) if d >= logistic::LSE_DEFECT_REACH => ":log-sum-exp-global-max".to_string(),
+        _ => String::new(),
+    };
+    isolate::isolated_with("multinomial", c, obs, &suffix)
 }
 fn glm_isolated(c: &glm::GlmCase, obs: &mut Obs) {
     // a fit that never returns gets its own signature when the mean can leave the deviance's domain
